@@ -238,6 +238,9 @@ func e2Session(args []string) int {
 				n := gen.Pick(r, 1, 5, 20, 60)
 				if bigNow {
 					n = 64*1024 + r.Intn(192*1024)
+					if i == 0 && *seed%2 == 1 {
+						n = 4400*1024 + r.Intn(1500*1024) // the FIRST record of the WAL file is larger than the WAL buffer
+					}
 					v = gen.Bytes(r, n) // incompressible: the WAL is snappy-compressed
 				} else if bigSyncNow && r.Intn(2) == 0 {
 					v = gen.Bytes(r, 4300*1024+r.Intn(1700*1024))
@@ -271,6 +274,23 @@ func e2Session(args []string) int {
 			if r.Intn(12) == 0 {
 				time.Sleep(time.Duration(200+r.Intn(1500)) * time.Microsecond)
 			}
+		}
+		// wipe-out ending (sessions whose compactor also takes single tables): every key is deleted, the memstore is
+		// rotated out and the compactor gets some ticks — tables without any record come and go before Close
+		if o.Threshold == 0 && o.Live && !faultSession && !bigNow && !bigSyncNow && r.Intn(2) == 0 {
+			ctl.mark("PHASE wipe-out")
+			for _, k := range keys {
+				ctl.mark("INV %d del %s ", opIdx, hex.EncodeToString([]byte(k)))
+				if e := db.DeleteBytes([]byte(k)); e != nil {
+					ctl.mark("ACK %d err %s", opIdx, strings.ReplaceAll(e.Error(), "\n", " "))
+				} else {
+					ctl.mark("ACK %d ok", opIdx)
+				}
+				opIdx++
+			}
+			_ = db.VerifForceRotate()
+			waitFlushIdle(30 * time.Second)
+			time.Sleep(40 * time.Millisecond)
 		}
 		ctl.mark("PHASE close-begin")
 		if err := db.Close(); err != nil {
@@ -306,10 +326,15 @@ func e2Recover(args []string) int {
 	wbuf := fs.Uint64("wbuf", 4096, "")
 	hashVals := fs.Bool("hashvals", false, "report sha prefixes instead of values")
 	cont := fs.Bool("cont", false, "after the read-all: a fixed continuation (put, delete, close, open) and a second read-all")
+	async := fs.Bool("async", false, "open with the asynchronous WAL option")
 	kill2 := fs.Bool("kill2", false, "with -cont: no Close after the continuation, the process ends like a second kill (the caller recovers the directory again)")
 	_ = fs.Parse(args)
 	var out e2RecoverOut
-	db, err := simpledb.NewSimpleDB(*dir, simpledb.DisableCompactions(), simpledb.ReadBufferSizeBytes(*rbuf), simpledb.WriteBufferSizeBytes(*wbuf))
+	ropts := []simpledb.ExtraOption{simpledb.DisableCompactions(), simpledb.ReadBufferSizeBytes(*rbuf), simpledb.WriteBufferSizeBytes(*wbuf)}
+	if *async {
+		ropts = append(ropts, simpledb.EnableAsyncWAL())
+	}
+	db, err := simpledb.NewSimpleDB(*dir, ropts...)
 	if err == nil {
 		err = db.Open()
 	}
